@@ -214,6 +214,10 @@ func tcOf(env *core.Env) sut.Toolchain {
 	if env.NoServer || os.Getenv("VERIF_NOSERVER") == "1" {
 		return tc
 	}
+	if os.Getenv("VERIF_INPROC") == "1" {
+		tc.InProc = inprocCompile
+		return tc
+	}
 	v, err := env.Resource("ferretd", func() (any, error) {
 		s := sut.NewServer(tc)
 		closers = append(closers, s.Close)
